@@ -8,7 +8,9 @@ import (
 	"fmt"
 	"os"
 	"path/filepath"
+	"sort"
 	"strings"
+	"time"
 
 	bufcli "github.com/bufbuild/buf/private/buf/cmd/buf"
 	"github.com/bufbuild/buf/private/bufpkg/bufimage"
@@ -16,6 +18,7 @@ import (
 	"github.com/bufbuild/buf/private/pkg/app/appcmd"
 	"github.com/bufbuild/buf/private/pkg/protoencoding"
 	"github.com/bufbuild/verif/simfs"
+	"github.com/bufbuild/verif/tape"
 	"google.golang.org/protobuf/proto"
 
 	imagev1 "github.com/bufbuild/buf/private/gen/proto/go/buf/alpha/image/v1"
@@ -41,6 +44,11 @@ type cliPlan struct {
 	alias     map[string]bool // module/path -> a second name (a link, sorting after the real name) for the file
 	inputKind int             // 0 directory, 1 tar, 2 zip
 	staleTwin string          // archive member that appears twice: a stale copy first, the real one after it
+	// v1: the workspace is configured the old way - buf.work.yaml (or buf.work) at the root, and in each
+	// module directory a v1 buf.yaml or, older still, buf.mod
+	v1       bool
+	workName string
+	modCfg   []string
 }
 
 // writeCLIWorkspace lays the workspace out on disk as a v2 workspace: buf.yaml at the root, one
@@ -69,6 +77,9 @@ func (m *bsim) writeCLIWorkspace() string {
 			if strings.HasPrefix(filepath.Base(p), "._") {
 				appleDouble = true
 			}
+			if m.cliPlain {
+				continue
+			}
 			switch m.tp.Draw("clisymlink", 8) {
 			case 7:
 				plan.linked[dir+"/"+p] = true
@@ -77,8 +88,18 @@ func (m *bsim) writeCLIWorkspace() string {
 			}
 		}
 	}
+	if !plan.shared && m.tp.Draw("cliv1", 3) == 2 {
+		plan.v1 = true
+		plan.workName = tape.Pick(m.tp, "cliworkname", []string{"buf.work.yaml", "buf.work"})
+		for range m.ws.Modules {
+			plan.modCfg = append(plan.modCfg, tape.Pick(m.tp, "climodcfg", []string{"buf.yaml", "buf.mod"}))
+		}
+		m.s.Probe("cli-v1-workspace")
+	}
+	// an environment switch of the command: copy the whole input into memory before reading it
+	m.cliCopyToMemory = m.tp.Draw("clicopymem", 4) == 3
 	plan.inputKind = m.tp.Draw("cliinput", 3)
-	if appleDouble {
+	if appleDouble || m.cliPlain {
 		// (archive extraction drops AppleDouble "._name" entries by design: such a workspace is given as a directory)
 		plan.inputKind = 0
 	}
@@ -129,11 +150,24 @@ func (m *bsim) materialiseCLIWorkspace(plan *cliPlan, root string, variant int) 
 	var items []item
 	var y strings.Builder
 	y.WriteString("version: v2\nmodules:\n")
+	if plan.v1 {
+		y.Reset()
+		y.WriteString("version: v1\ndirectories:\n")
+	}
 	for _, mod := range m.ws.Modules {
 		dir := plan.modDir[mod.Index]
-		fmt.Fprintf(&y, "  - path: %s\n", dir)
-		if mod.Name != "" {
-			fmt.Fprintf(&y, "    name: %s\n", mod.Name)
+		if plan.v1 {
+			fmt.Fprintf(&y, "  - %s\n", dir)
+			cfg := "version: v1\n"
+			if mod.Name != "" {
+				cfg += "name: " + mod.Name + "\n"
+			}
+			items = append(items, item{dir + "/" + plan.modCfg[mod.Index], []byte(cfg)})
+		} else {
+			fmt.Fprintf(&y, "  - path: %s\n", dir)
+			if mod.Name != "" {
+				fmt.Fprintf(&y, "    name: %s\n", mod.Name)
+			}
 		}
 		tops := map[string]bool{}
 		files := mod.ModuleFiles()
@@ -153,7 +187,11 @@ func (m *bsim) materialiseCLIWorkspace(plan *cliPlan, root string, variant int) 
 			}
 		}
 	}
-	items = append(items, item{"buf.yaml", []byte(y.String())})
+	if plan.v1 {
+		items = append(items, item{plan.workName, []byte(y.String())})
+	} else {
+		items = append(items, item{"buf.yaml", []byte(y.String())})
+	}
 	if variant == 1 {
 		for i, j := 0, len(items)-1; i < j; i, j = i+1, j-1 {
 			items[i], items[j] = items[j], items[i]
@@ -311,13 +349,22 @@ func (m *bsim) cliArgs(root string) []string {
 	return args
 }
 
+// cliEnv is the environment the commands run in.
+func (m *bsim) cliEnv() map[string]string {
+	env := map[string]string{"HOME": filepath.Join(m.env.Scratch, "cli", "home"), "BUF_CACHE_DIR": filepath.Join(m.env.Scratch, "cli", "cache"), "PATH": ""}
+	if m.cliCopyToMemory {
+		env["BUF_BETA_COPY_FILES_TO_MEMORY"] = "1"
+	}
+	return env
+}
+
 // cliBuild runs the real `buf build` command in-process on the workspace directory and returns the
 // image it wrote.
 func (m *bsim) cliBuild(ctx context.Context, root string) (bufimage.Image, []byte, error) {
 	out := filepath.Join(m.env.Scratch, "cli", fmt.Sprintf("out%d.binpb", m.counters["cli_builds"]))
 	m.counters["cli_builds"]++
 	var stdout, stderr bytes.Buffer
-	env := map[string]string{"HOME": filepath.Join(m.env.Scratch, "cli", "home"), "BUF_CACHE_DIR": filepath.Join(m.env.Scratch, "cli", "cache"), "PATH": ""}
+	env := m.cliEnv()
 	args := append([]string{"buf", "build", m.cliInputs[m.cliVariant], "-o", out}, m.cliArgs(root)...)
 	container := app.NewContainer(env, strings.NewReader(""), &stdout, &stderr, args...)
 	if err := appcmd.Run(ctx, container, bufcli.NewRootCommand("buf")); err != nil {
@@ -327,6 +374,7 @@ func (m *bsim) cliBuild(ctx context.Context, root string) (bufimage.Image, []byt
 	if err != nil {
 		return nil, nil, err
 	}
+	m.cliLastOut = out
 	protoImage := &imagev1.Image{}
 	if err := protoencoding.NewWireUnmarshaler(nil).Unmarshal(data, protoImage); err != nil {
 		if err2 := proto.Unmarshal(data, protoImage); err2 != nil {
@@ -344,7 +392,7 @@ func (m *bsim) cliBuild(ctx context.Context, root string) (bufimage.Image, []byt
 // build) and returns what it printed; a non-zero exit because of findings is part of the result.
 func (m *bsim) cliText(ctx context.Context, root string, command string, extra ...string) string {
 	var stdout, stderr bytes.Buffer
-	env := map[string]string{"HOME": filepath.Join(m.env.Scratch, "cli", "home"), "BUF_CACHE_DIR": filepath.Join(m.env.Scratch, "cli", "cache"), "PATH": ""}
+	env := m.cliEnv()
 	args := append([]string{"buf", command, m.cliInputs[m.cliVariant]}, m.cliArgs(root)...)
 	args = append(args, extra...)
 	container := app.NewContainer(env, strings.NewReader(""), &stdout, &stderr, args...)
@@ -355,4 +403,126 @@ func (m *bsim) cliText(ctx context.Context, root string, command string, extra .
 		text = strings.ReplaceAll(text, loc, "<ws>")
 	}
 	return text
+}
+
+// cliPlantedError builds the workspace with the planted error through the real command, giving the
+// workspace directory as it is or through a symbolic link to it: the command must fail and name the
+// broken file below the path THE USER GAVE, at the position the compiler reports.
+func (m *bsim) cliPlantedError(ctx context.Context) {
+	f := m.ws.Planted
+	m.cliPlain = true
+	root := m.writeCLIWorkspace()
+	m.cliPlain = false
+	input := root
+	how := "directory"
+	switch m.tp.Draw("cliplantedinput", 3) {
+	case 1:
+		input = filepath.Join(m.env.Scratch, "cli", "current")
+		if err := os.Symlink(root, input); err != nil {
+			panic(err)
+		}
+		how = "link to the directory"
+	case 2:
+		input = filepath.Join(m.env.Scratch, "cli", "rel-current")
+		if err := os.Symlink("ws", input); err != nil {
+			panic(err)
+		}
+		how = "relative link to the directory"
+	}
+	m.cliVariant = 0
+	m.cliInputs[0], m.cliFlagRoots[0] = input, input
+	var stdout, stderr bytes.Buffer
+	args := append([]string{"buf", "build", input}, m.cliArgs(root)...)
+	container := app.NewContainer(m.cliEnv(), strings.NewReader(""), &stdout, &stderr, args...)
+	err := appcmd.Run(ctx, container, bufcli.NewRootCommand("buf"))
+	text := stderr.String()
+	shown := strings.ReplaceAll(text, m.env.Scratch, "<scratch>")
+	if err == nil {
+		m.violate("planted-error", "cli", "buf build of a workspace with a planted error (%s) in %s succeeded", f.PlantKind, f.Path)
+		return
+	}
+	want := m.refErrors[0]
+	wantPrefix := fmt.Sprintf("%s:%d:%d:", filepath.Join(input, m.cliModDir[f.Module], filepath.FromSlash(want.path)), want.line, want.col)
+	found := false
+	for _, line := range strings.Split(text, "\n") {
+		if strings.HasPrefix(line, wantPrefix) {
+			found = true
+		}
+	}
+	if !found {
+		m.violate("planted-error", "cli|path-the-user-gave", "buf build <%s>: no diagnostic starts with %s; stderr: %s", how, strings.ReplaceAll(wantPrefix, m.env.Scratch, "<scratch>"), clipText(shown))
+	} else {
+		m.s.Probe("planted-error-located-through-the-command-line")
+	}
+}
+
+func clipText(s string) string {
+	if len(s) > 600 {
+		return s[:600] + "..."
+	}
+	return s
+}
+
+// cliRunAfterRun: "run after run" - the same command, the same input, the same output file, at two
+// different moments of the (simulated) clock: a compressed image must come out byte-identical. Runs on
+// the bubble's main goroutine, so that sleeping advances synctest's clock at once.
+func (m *bsim) cliRunAfterRun() {
+	suffix := tape.Pick(m.tp, "cligz", []string{".binpb.gz", ".json.gz", ".binpb#compression=gzip", ".binpb.zst", ".txtpb.gz"})
+	out := filepath.Join(m.env.Scratch, "cli", "again"+suffix)
+	file := strings.SplitN(out, "#", 2)[0]
+	var first []byte
+	m.s.Unhashed = true
+	defer func() { m.s.Unhashed = false }()
+	for k := 0; k < 2; k++ {
+		if k == 1 {
+			time.Sleep(time.Duration(1500+m.tp.Draw("cligap", 3)*86400000) * time.Millisecond)
+		}
+		m.cliVariant = 0
+		var stdout, stderr bytes.Buffer
+		args := append([]string{"buf", "build", m.cliInputs[0], "-o", out}, m.cliArgs(m.cliRoot)...)
+		container := app.NewContainer(m.cliEnv(), strings.NewReader(""), &stdout, &stderr, args...)
+		if err := appcmd.Run(context.Background(), container, bufcli.NewRootCommand("buf")); err != nil {
+			m.violate("schedule-independence", "cli-compressed", "buf build -o %s failed: %v (stderr: %s)", "again"+suffix, err, clipText(strings.ReplaceAll(stderr.String(), m.env.Scratch, "<scratch>")))
+			return
+		}
+		data, err := os.ReadFile(file)
+		if err != nil {
+			panic(err)
+		}
+		if k == 0 {
+			first = data
+		} else if !bytes.Equal(first, data) {
+			m.violate("output-identical", "run-after-run|cli-image"+strings.SplitN(suffix, "#", 2)[0], "buf build -o %s run twice on the same input, a moment apart on the clock, wrote different bytes: %s", "again"+suffix, firstDiff(string(first), string(data)))
+		}
+	}
+	m.s.Probe("cli-compressed-image-run-after-run")
+}
+
+// cliBuildFromImage runs `buf build <image file> --path ... -o <file>` on the image the last cliBuild
+// wrote, naming two or three of its targeted files in this execution's listing order.
+func (m *bsim) cliBuildFromImage(ctx context.Context) (string, bool, error) {
+	targets := append([]string(nil), m.ws.Targets()...)
+	sort.Strings(targets)
+	if len(targets) < 2 || m.cliLastOut == "" {
+		return "", false, nil
+	}
+	if len(targets) > 3 {
+		targets = targets[len(targets)-3:]
+	}
+	out := m.cliLastOut + ".again.binpb"
+	args := []string{"buf", "build", m.cliLastOut, "-o", out}
+	for _, p := range m.permuted("imagepaths", targets) {
+		args = append(args, "--path", p)
+	}
+	var stdout, stderr bytes.Buffer
+	container := app.NewContainer(m.cliEnv(), strings.NewReader(""), &stdout, &stderr, args...)
+	if err := appcmd.Run(ctx, container, bufcli.NewRootCommand("buf")); err != nil {
+		return "", false, fmt.Errorf("%w (stderr: %s)", err, strings.ReplaceAll(stderr.String(), m.env.Scratch, "<scratch>"))
+	}
+	data, err := os.ReadFile(out)
+	if err != nil {
+		return "", false, err
+	}
+	m.s.Probe("cli-image-input-with-paths")
+	return string(data), true, nil
 }
